@@ -107,6 +107,7 @@ class C08(Prop):
                 pre.roots.remove(pre.args["tree"])
                 pre.roots.append(holder)
                 pre.args["tree"] = holder
+                pre.args["oddity"] = True
         elif op in ("create", "bulk"):
             if op == "create" and a % 12 in (9, 10, 11):
                 pre.args["target"] = tree(jv)
@@ -348,6 +349,11 @@ class C08(Prop):
                 self.cleanup(lib, pre)
                 if lib.ledger_live() != 0:
                     raise Violation("%s: fault-free run leaks" % op, key="leak-nofault")
+                if failed0 and pre.args.get("oddity"):
+                    # a string item without text / a name-less member are not JSON values: a printer may refuse them
+                    # (outside every property's domain); nothing to enumerate then
+                    stats.cls("oddity_refused_fault_free_(no_verdict)")
+                    continue
                 if failed0 and op in ("parse", "print", "create", "bulk", "duplicate", "add_helper", "add_ref_array", "add_ref_object"):
                     raise Violation("%s: fails without any allocation failure" % op, key="fail-nofault")
                 for k in range(1, n + 1):
